@@ -63,9 +63,33 @@ for mf in sorted(glob.glob(os.path.join(root, "seeded", "*", "meta.json"))):
         elif nl:
             extra = " no longer checks: " + ", ".join((x.get("what") if isinstance(x, dict) else str(x)) for x in nl[:3])
     res = re.sub(r"replay=\S+", "", res).strip()
+    first = re.sub(r"replay=\S+", "", m.get("check_result_first") or "").strip()
+    if first and first != res:
+        res = "first trial: " + cut(first, 120) + " — " + (m.get("strengthened") or "check strengthened") + " — now: " + res
     t_seed.append("| %s | %s | %s | %s%s |" % (name, esc(cut(title, 260)), esc(cut(needs, 260)), esc(cut(res, 330)), esc(extra)))
 
-tables = {"fixes": t_fix, "findings": t_find, "seeded": t_seed}
+t_stat = ["| property | theorems in `coq/Properties` | of which `…_refuted` (witnessed) | of which `…_partial` | stages (harness) | findings open / fixed |", "|---|---|---|---|---|---|"]
+import importlib, sys
+sys.path.insert(0, os.path.join(root, "lib")); sys.path.insert(0, os.path.join(root, "props"))
+for i in range(1, 21):
+    pid = "C%02d" % i
+    try:
+        txt = open(os.path.join(root, "coq", "Properties", pid + ".v")).read()
+    except OSError:
+        continue
+    names = re.findall(r"^\s*(?:Theorem|Corollary)\s+([A-Za-z0-9_']+)", txt, re.M)
+    ref = [n for n in names if "refuted" in n]
+    par = [n for n in names if "partial" in n]
+    try:
+        P = importlib.import_module(pid.lower()).PROP
+        stages = ", ".join(st["name"] for st in P.stages)
+    except Exception:
+        stages = "?"
+    nopen = len([1 for kv, _ in findings if kv.get("property") == pid])
+    nfix = len([1 for kv, _ in fixed if kv.get("property") == pid])
+    t_stat.append("| %s | %d | %s | %s | %s | %d / %d |" % (pid, len(names), ", ".join("`%s`" % n for n in ref) or "—", ", ".join("`%s`" % n for n in par) or "—", stages, nopen, nfix))
+
+tables = {"fixes": t_fix, "findings": t_find, "seeded": t_seed, "status": t_stat}
 p = os.path.join(root, "DESIGN.md")
 s = open(p).read()
 for k, rows in tables.items():
